@@ -24,7 +24,9 @@ package shrinker
 //@   requires shrinkInv(shrinkst) && !muheld[base(shrinkst.mu)] && inum < 32768
 //@   requires [D4-quiet] quiet() @C06 @C03
 //@   allocates fstxn.FsTxn, alloctxn.AllocTxn, jrnl.Op, []uint64, map[uint64]*inode.Inode, cache.Cslot, inode.Inode, buf.Buf, marshal.Dec, marshal.Enc, cell:uint64, []uint8, addr.Addr
-//@   modifies held, lastst, curop, freshinum, wroteinum, cphase, abits, dirtyinum, muheld, cache.Cslot.Obj, map[uint64]*inode.Inode, inode.Inode.ShrinkSize, []uint64@inode.Inode.blks, []uint64@alloctxn.AllocTxn.freeBnums, alloctxn.AllocTxn.freeBnums, buf.Buf.dirty, []uint8@buf.Buf.Data, zeroed
+//@   modifies held, lastst, curop, freshinum, wroteinum, cphase, abits, dirtyinum, muheld, cache.Cslot.Obj, map[uint64]*inode.Inode, inode.Inode.ShrinkSize, []uint64@inode.Inode.blks, []uint64@alloctxn.AllocTxn.freeBnums, alloctxn.AllocTxn.freeBnums, buf.Buf.dirty, []uint8@buf.Buf.Data, zeroed, dshrinks
+//@   ghostexit dshrinks = dshrinks + 1
+//@   assumes [no-wrap] dshrinks > old(dshrinks)
 //@   panic_assumed "shrink"
 //@   ensures [D4-quiet] quiet() && muheld == old(muheld) @C06 @C03
 //@   loop 0 invariant shrinkInv(shrinkst) && quiet() && muheld == old(muheld)
@@ -43,7 +45,7 @@ package shrinker
 //@   requires shrinkInv(shrinkst) && !muheld[base(shrinkst.mu)] && inum < 32768 && quiet()
 //@   panic_assumed "shrink"
 //@   allocates fstxn.FsTxn, alloctxn.AllocTxn, jrnl.Op, []uint64, map[uint64]*inode.Inode, cache.Cslot, inode.Inode, buf.Buf, marshal.Dec, marshal.Enc, cell:uint64, []uint8, addr.Addr
-//@   modifies held, lastst, curop, freshinum, wroteinum, cphase, abits, dirtyinum, muheld, cache.Cslot.Obj, map[uint64]*inode.Inode, inode.Inode.ShrinkSize, []uint64@inode.Inode.blks, []uint64@alloctxn.AllocTxn.freeBnums, alloctxn.AllocTxn.freeBnums, buf.Buf.dirty, []uint8@buf.Buf.Data, shrinkst.nthread, zeroed
+//@   modifies held, lastst, curop, freshinum, wroteinum, cphase, abits, dirtyinum, muheld, cache.Cslot.Obj, map[uint64]*inode.Inode, inode.Inode.ShrinkSize, []uint64@inode.Inode.blks, []uint64@alloctxn.AllocTxn.freeBnums, alloctxn.AllocTxn.freeBnums, buf.Buf.dirty, []uint8@buf.Buf.Data, shrinkst.nthread, zeroed, dshrinks
 //@   ensures [D5-signalled] quiet() && muheld == old(muheld) @C06
 
 // C14-P3 / C06-D5: construction, shutdown and crash touch the bookkeeping under the mutex only
